@@ -320,6 +320,15 @@ func (m *Manager) AddPublicIP(ip net.IP) error {
 	m.poolMu.Lock()
 	defer m.poolMu.Unlock()
 
+	// An address that is already in the pool must not get a second entry: both entries
+	// would hand out the same port blocks on the same public address
+	for i := range m.pool {
+		if m.pool[i].PublicIP.Equal(ip4) {
+			m.logger.Warn("Public IP already in NAT pool, not added again", zap.String("ip", ip4.String()))
+			return nil
+		}
+	}
+
 	// Calculate max subscribers for this IP
 	totalPorts := m.portRangeEnd - m.portRangeStart + 1
 	maxSubs := totalPorts / m.portsPerSubscriber
